@@ -45,3 +45,7 @@ def run(ctx, rep):
             group.append((cq.replace("chartparse.", "").replace(".ParsedData", ""), impl))
         if which in ("instrument", "sync"):
             check_pairwise_disjoint(ctx, rd, group, pf, f"{which} section")
+    rch = rep.rule("chain", "file -> lines (read().splitlines(), utf-8-sig) -> framing -> section route -> dispatcher -> builders: every link "
+                            "hands the lines on unchanged", floor=10)
+    from .chain import check_chain
+    check_chain(ctx, rch, "all", strict=True)
